@@ -158,24 +158,39 @@ def _fresh_process(case, seed):
     return json.loads(p.stdout)
 
 
-def extra(ctx):
-    """metamorphic relations evaluated on the implementation (both sides of each pair)"""
-    rng = ctx.rng
-    quick = ctx.quick()
-    n = 60 if quick else 600
-    bad = 0
+def _biased_costs(rng):
+    """plain cost vectors; half of them with transfers cheaper than losses / duplications (where ties between
+    transfer receivers appear), always inside the coherent region"""
+    if rng.random() < 0.5:
+        return R.rand_costs(rng, plain=True)
+    while True:
+        c = {"spe": rng.randint(0, 1), "dup": rng.randint(1, 5), "hgt": rng.randint(0, 2), "floss": rng.randint(1, 4), "sloss": 1}
+        if R.coherent(c, plain=True):
+            return c
+
+
+def _meta_case(args):
+    """all metamorphic relations on one base input; returns (failures, stats, notes)"""
+    import random
+    seed, i, quick, mode = args
+    rng = random.Random(seed)
+    full = (i % 4 == 0)          # every fourth input: all relations; the others: children reordering (+ oracle) only
+    fails, notes = [], []
+    stats = {"swap": 0, "outgroup": 0, "scale": 0, "raise": 0, "rerun": 0, "labelled": 0}
 
     def fail(case, what, info):
-        nonlocal bad
-        bad += 1
-        ctx.findings.append(Finding("metamorphic", case, info, "(metamorphic relation)", False, what))
+        fails.append((case, what, info))
 
-    stats = {"swap": 0, "outgroup": 0, "scale": 0, "raise": 0, "rerun": 0, "labelled": 0}
-    for i in range(n):
-        S = R.rand_shape(rng, rng.randint(2, 7))
-        case = {"S": S, "O": R.rand_otree(rng, rng.randint(2, 8), R.shape_leaves(S)), "costs": R.rand_costs(rng, plain=True)}
+    if mode == "plain":
+        S = R.rand_shape(rng, rng.randint(2, 8))
+        case = {"S": S, "O": R.rand_otree(rng, rng.randint(2, 9), R.shape_leaves(S)), "costs": _biased_costs(rng)}
         v0, s0 = thl_result(case)
         c0 = sorted((canon_plain(x) for x in s0), key=json.dumps)
+        # the complete optimal set from the independent dynamic programme (the presentation must not matter,
+        # so the set itself must be the specification's)
+        m, opt = R.Oracle(case["S"]).best(case["O"], case["costs"])
+        if num(v0) != m or {json.dumps(x) for x in s0} != opt:
+            fail({"orig": case}, f"reconcile_thl: minimum {v0} with {len(s0)} optimal solutions; the specification gives {m} with {len(opt)}", {"orig": [v0, s0]})
         # children reordered in both trees (node names do not exist in this encoding; families renamed below)
         S2, pmap = swap_species(case["S"], rng)
         t = {"S": S2, "O": swap_object(case["O"], rng, pmap, {}), "costs": case["costs"]}
@@ -185,6 +200,8 @@ def extra(ctx):
         stats["swap"] += 1
         if v0 != v1 or c0m != c1:
             fail({"orig": case, "twin": t}, f"reordering children changed the result: minimum {v0} vs {v1}, {len(c0m)} vs {len(c1)} optimal solutions", {"orig": [v0, s0], "twin": [v1, s1]})
+        if not full:
+            return fails, stats, notes
         # outgroup
         t = outgroup(case)
         v1, s1 = thl_result(t)
@@ -197,7 +214,7 @@ def extra(ctx):
             extra_sols = [json.loads(x) for x in got if x not in want]
             uses_new_root = all('""' in json.dumps(x) for x in extra_sols) and all(x in got for x in want)
             if case["costs"]["floss"] == 0 and uses_new_root:
-                ctx.notes.append("F-OUTGROUP-TIES met on a generated case (floss = 0, extra optima on the new root)")
+                notes.append("F-OUTGROUP-TIES met on a generated case (floss = 0, extra optima on the new root)")
             else:
                 fail({"orig": case, "twin": t}, "adding an outgroup changed the optimal set", {"orig": want, "twin": got})
         # scaling
@@ -215,16 +232,18 @@ def extra(ctx):
             if num(v1) < num(v0):
                 fail({"orig": case, "twin": dict(case, costs=c2)}, f"raising a unit cost lowered the minimum: {v0} -> {v1}", {})
         # rerun in a fresh process with another hash seed
-        if i % (10 if quick else 6) == 0:
+        if i % (160 if quick else 80) == 0:
             v1, s1 = _fresh_process(case, rng.randint(1, 10 ** 6))
             stats["rerun"] += 1
             if v1 != v0 or s1 != sorted(s0, key=json.dumps):
                 fail({"orig": case}, "a fresh process with another hash seed returned a different result", {"first": [v0, s0], "second": [v1, s1]})
+    else:
         # labelled solvers: children swap + scale + outgroup on minimum and number of optima
-        if i % 3 == 0:
-            for unordered in (False, True):
-                lc = (c03.rand_case(rng, 5, 4, 3) if unordered else dict(c02.rand_case(rng, 4, 3, 3, p_incons=0, p_pres=0)))
+        if True:
+            for unordered in ((False, True) if mode == "both" else (True,)):
+                lc = (c03.rand_case(rng, 6, 4, 4, chain=0.5, clade=0.8) if unordered else dict(c02.rand_case(rng, 5, 3, 3, p_incons=0, p_pres=0)))
                 lc.pop("pres", None)
+                lc.pop("prime", None)
                 v0l, n0 = labelled_result(lc, unordered)
                 S2, pmap = swap_species(lc["S"], rng)
                 fams = sorted({f for _, l in R.otree_leaves(lc["O"]) for f in l["syn"]})
@@ -243,6 +262,8 @@ def extra(ctx):
                 stats["labelled"] += 1
                 if v0l != v1l or n0 != n1:
                     fail({"orig": lc, "twin": t}, f"{'unordered' if unordered else 'ordered'} solver: reordering children / renaming families changed the result: {v0l},{n0} vs {v1l},{n1}", {})
+                if not full:
+                    continue
                 k = rng.randint(2, 3)
                 v2l, n2 = labelled_result(dict(lc, costs=scale(lc["costs"], k)), unordered)
                 if (v0l is None) != (v2l is None) or (v0l is not None and (num(v2l) != k * num(v0l) or n2 != n0)):
@@ -255,6 +276,35 @@ def extra(ctx):
                 v3l, n3 = labelled_result(outgroup(lc), unordered)
                 if v3l != v0l or (lc["costs"]["floss"] > 0 and n3 != n0):
                     fail({"orig": lc}, f"{'unordered' if unordered else 'ordered'} solver: outgroup changed the result: {v0l},{n0} -> {v3l},{n3}", {})
+    return fails, stats, notes
+
+
+def extra(ctx, n=None):
+    """metamorphic relations evaluated on the implementation (both sides of each pair), in parallel"""
+    import multiprocessing as mp
+    from .. import core
+    rng = ctx.rng
+    quick = ctx.quick()
+    n_plain, n_lab, n_ulab = (2400, 300, 3000) if quick else (24000, 3000, 30000)
+    if n:
+        n_plain, n_lab, n_ulab = n, n // 8, n // 3
+    args = ([(rng.randrange(1 << 62), i, quick, "plain") for i in range(n_plain)]
+            + [(rng.randrange(1 << 62), i, quick, "both") for i in range(n_lab)]
+            + [(rng.randrange(1 << 62), i, quick, "unordered") for i in range(n_ulab)])
+    n = len(args)
+    with mp.get_context("fork").Pool(core.NPROC) as pool:
+        results = pool.map(_meta_case, args, chunksize=8)
+    stats = {"swap": 0, "outgroup": 0, "scale": 0, "raise": 0, "rerun": 0, "labelled": 0}
+    bad = 0
+    for fails, st, notes in results:
+        for k, v in st.items():
+            stats[k] += v
+        for x in notes:
+            if x not in ctx.notes:
+                ctx.notes.append(x)
+        for case, what, info in fails:
+            bad += 1
+            ctx.findings.append(Finding("metamorphic", case, info, "(metamorphic relation)", False, what))
         ctx.evaluations += 1
     ctx.dist["metamorphic"] = stats
     ctx.notes.append(f"metamorphic relations: {n} base inputs, {bad} failures")
@@ -312,3 +362,43 @@ def search(ctx):
                            f"reordering children changed the result: minimum {v0} vs {v1}, {len(s0)} vs {len(s1)} optimal solutions")
     ctx.notes.append(f"failing-input search: {n} fresh inputs, none violates the property")
     return None
+
+
+def replay_case(payload):
+    """metamorphic / search findings: the relation named in the stored verdict is evaluated again on the stored pair"""
+    case, what = payload["case"], payload.get("detail", "")
+    orig, twin = case.get("orig", case), case.get("twin")
+    lab = what.startswith("unordered solver") or what.startswith("ordered solver")
+    unordered = what.startswith("unordered solver")
+
+    def res(c):
+        if lab:
+            return labelled_result(c, unordered)
+        v, s = thl_result(c)
+        return v, len(s)
+    v0, n0 = res(orig)
+    if "specification gives" in what or "the true minimum is" in what:
+        v, s = thl_result(orig)
+        m, opt = R.Oracle(orig["S"]).best(orig["O"], orig["costs"])
+        return (num(v) == m and {json.dumps(x) for x in s} == opt), f"minimum {v} with {len(s)} optimal solutions; the specification gives {m} with {len(opt)}", [v, s]
+    if "fresh process" in what:
+        v, s = thl_result(orig)
+        v1, s1 = _fresh_process(orig, 12345)
+        return (v1 == v and s1 == sorted(s, key=json.dumps)), "rerun in a fresh process with another hash seed", [v, len(s), v1, len(s1)]
+    if "outgroup" in what:
+        v1, n1 = res(outgroup(orig))
+        ok = v1 == v0 and (n1 == n0 or orig["costs"]["floss"] == 0)
+        return ok, f"outgroup: {v0},{n0} -> {v1},{n1}", [v0, n0, v1, n1]
+    if "scaling" in what:
+        import re
+        k = int(re.search(r"by (\d+)", what).group(1))
+        v1, n1 = res(dict(orig, costs=scale(orig["costs"], k)))
+        ok = (v0 is None and v1 is None) or (v0 is not None and v1 is not None and num(v1) == k * num(v0) and n1 == n0)
+        return ok, f"scaling by {k}: {v0},{n0} -> {v1},{n1}", [v0, n0, v1, n1]
+    if twin is None:
+        return True, "no twin stored for this relation", [v0, n0]
+    v1, n1 = res(twin)
+    if "raising" in what:
+        ok = v0 is None or (v1 is not None and num(v1) >= num(v0))
+        return ok, f"raising a unit cost: {v0} -> {v1}", [v0, v1]
+    return (v0 == v1 and n0 == n1), f"reordering children / renaming: {v0},{n0} vs {v1},{n1}", [v0, n0, v1, n1]
